@@ -160,7 +160,8 @@ def c_format(fmt, args):
             if a.__class__ is S: a = rt.concretize(a)
             cargs.append(ctypes.c_int(_sx32(a & 0xFFFFFFFF)))
         a = args[ai]; ai += 1
-        if rt.is_sym(a): raise Unmodeled('printf-style formatting of a symbolic value')
+        if a.__class__ is SF: a = rt.sym_float_value(a, 'printf-style formatting of a symbolic value')
+        elif a.__class__ is S: a = rt.concretize(a)
         if conv in b'diouxXc':
             if b'l' in spec or b'z' in spec or b'j' in spec: cargs.append(ctypes.c_long(a - (1 << 64) if a >> 63 else a))
             else: cargs.append(ctypes.c_int(_sx32(a & 0xFFFFFFFF)))
@@ -207,7 +208,9 @@ def _getenv(p): return 0
 def _libm1(name):
     f = rt._cf1(name)
     def m(x):
-        if x.__class__ is SF: raise Unmodeled(name + ' on symbolic float')
+        if x.__class__ is SF:
+            if name in ('sqrtf', 'floorf', 'ceilf', 'roundf', 'truncf', 'fabsf'): return rt.fround(name[:-1], x, 32)
+            return rt.sym_contract(name, 32, [x])
         return f(x)
     return m
 for _n in ('acosf', 'asinf', 'atanf', 'cosf', 'sinf', 'tanf', 'expf', 'logf', 'log10f', 'sqrtf', 'floorf', 'ceilf', 'roundf', 'truncf', 'fabsf', 'exp2f', 'log2f'):
@@ -215,7 +218,9 @@ for _n in ('acosf', 'asinf', 'atanf', 'cosf', 'sinf', 'tanf', 'expf', 'logf', 'l
 def _libm2(name):
     f = rt._cf2(name)
     def m(x, y):
-        if x.__class__ is SF or y.__class__ is SF: raise Unmodeled(name + ' on symbolic float')
+        if x.__class__ is SF or y.__class__ is SF:
+            if name == 'copysignf': raise Unmodeled('copysignf on symbolic float')
+            return rt.sym_contract(name, 32, [x, y])
         return f(x, y)
     return m
 for _n in ('atan2f', 'fmodf', 'powf', 'fminf', 'fmaxf', 'copysignf'):
@@ -227,12 +232,15 @@ for _n in ('floor', 'ceil', 'round', 'sqrt', 'fabs', 'log', 'log10', 'exp', 'sin
     def _mk(n):
         f = getattr(rt._libm, n); f.restype = ctypes.c_double; f.argtypes = [ctypes.c_double]
         def m(x):
-            if x.__class__ is SF: raise Unmodeled(n + ' on symbolic double')
+            if x.__class__ is SF:
+                if n in ('sqrt', 'floor', 'ceil', 'round', 'trunc', 'fabs'): return rt.fround(n, x, 64)
+                return rt.sym_contract(n, 64, [x])
             return f(x)
         return m
     EXT[_n] = _mk(_n)
 @ext('pow')
 def _pow(a, b):
+    if a.__class__ is SF or b.__class__ is SF: return rt.sym_contract('pow', 64, [a, b])
     f = rt._libm.pow; f.restype = ctypes.c_double; f.argtypes = [ctypes.c_double, ctypes.c_double]
     return f(a, b)
 
@@ -467,7 +475,6 @@ def _clock_now():
     return (1_700_000_000_000_000_000 + rt.PS.nclock * 1000) & M64
 @ext('_ZNSt6chrono3_V212steady_clock3nowEv')
 def _steady_now(): return _clock_now()
-rt.HOOKS = {}
 
 # ---- iostreams: base-class pieces living in libstdc++.so. Streams run their real (IR) template code on top.
 IOS_FLAGS_OFF = 24; IOS_PREC_OFF = 8; IOS_WIDTH_OFF = 16
@@ -538,7 +545,7 @@ def _fmt_flags(ios):
     return fl, prec
 # fmtflags bits (libstdc++): boolalpha 1, dec 2, fixed 4, hex 8, internal 16, left 32, oct 64, right 128, scientific 256, showbase 512, showpoint 1024, showpos 2048, skipws 4096, unitbuf 8192, uppercase 16384
 def _insert_double(os_, v):
-    if rt.is_sym(v): raise Unmodeled('ostream << symbolic floating-point value')
+    if rt.is_sym(v): v = rt.sym_float_value(v, 'ostream << symbolic floating-point value')
     fl, prec = _fmt_flags(_ios_of(os_))
     spec = b'%'
     if fl & 2048: spec += b'+'
